@@ -3,6 +3,7 @@
    explicitly stated fixed-output-length premises of C08_binding_64 / C08_binding_any_width. *)
 From Coq Require Import NArith ZArith List Bool.
 From Coq.Strings Require Import Byte.
+From LV Require Import Wire.CompactSize Wire.Tx Model.C05 Model.C08_Tx Proofs.C08_Tx.
 From LV Require Import Lib.Bytes Lib.Decimal Model.C08 Model.C08_Claim Model.C08_Cache Model.C08_Chunk Model.C08_Db Proofs.C08 Proofs.C08_Cache Proofs.C08_Chunk Proofs.C08_Db.
 Import ListNotations.
 
@@ -105,7 +106,8 @@ Theorem C08_same_input_means_same_node : forall b w : bytes, length b = length w
 Proof. exact app_comm_same_len. Qed.
 Print Assumptions C08_same_input_means_same_node.
 
-(* Position bits at or above the branch length are not looked at (DESIGN section 7). *)
+(* The FOLD does not look at position bits at or above the branch length; since fix 3419b3f
+   maybe_verify refuses such positions before folding (C08_verified_position_fits). *)
 Theorem C08_high_position_bits_ignored : forall (dsha : bytes -> bytes) br p1 p2 w,
   (p1 mod 2 ^ Z.of_nat (length br) = p2 mod 2 ^ Z.of_nat (length br))%Z ->
   fold_branch dsha br p1 w = fold_branch dsha br p2 w.
@@ -130,15 +132,17 @@ Proof. exact fold_branch_snoc. Qed.
 Print Assumptions C08_length_mutation_partial.
 
 (* The verified flag of a not yet verified transaction is set iff 0 < height < len(headers) and the
-   dict in use carries 'merkle' and 'pos', the siblings decode, and the fold from dsha(raw tx)
-   equals bytes 36..67 of the header stored at that height. *)
+   dict in use carries 'merkle' and 'pos', the siblings decode, the fold from dsha(raw tx) equals
+   bytes 36..67 of the header stored at that height, and the position fits the branch
+   (0 <= pos < 2^len(branch), fix 3419b3f). *)
 Theorem C08_verified_iff : forall (dsha : bytes -> bytes) headers st raw h arg net,
   t_verified st = false ->
   (t_verified (mv_state (maybe_verify dsha headers st raw h arg net)) = true <->
    (0 < h < Z.of_nat (length headers))%Z /\
    exists brs pos br, m_merkle (effective arg net) = Some brs /\ m_pos (effective arg net) = Some pos /\
      decode_branches brs = Some br /\
-     fold_branch dsha br pos (dsha raw) = header_root_raw (nth (Z.to_nat h) headers [])).
+     fold_branch dsha br pos (dsha raw) = header_root_raw (nth (Z.to_nat h) headers []) /\
+     pos_fits brs pos = true).
 Proof. exact verified_iff. Qed.
 Print Assumptions C08_verified_iff.
 
@@ -163,13 +167,29 @@ Theorem C08_unknown_height_never_verified : forall (dsha : bytes -> bytes) heade
 Proof. exact unknown_height_never_verified. Qed.
 Print Assumptions C08_unknown_height_never_verified.
 
-(* The supplied position (and always the height) is recorded on the transaction. *)
+(* The supplied position (and always the height) is recorded on the transaction when the proof is
+   evaluated; a position the branch cannot address (negative, or >= 2^len(branch)) is NOT recorded and
+   the flag is forced to False (fix 3419b3f; before it, bits at or above the branch length were ignored
+   and the bogus value was stored). *)
 Theorem C08_position_recorded : forall (dsha : bytes -> bytes) headers st raw h arg net,
   let r := maybe_verify dsha headers st raw h arg net in
   in_range headers h -> mv_outcome r = RetTx ->
-  m_pos (effective arg net) = Some (t_position (mv_state r)).
+  exists brs pos, m_merkle (effective arg net) = Some brs /\ m_pos (effective arg net) = Some pos /\
+    (if pos_fits brs pos then t_position (mv_state r) = pos
+     else t_position (mv_state r) = t_position st /\ t_verified (mv_state r) = false).
 Proof. exact position_recorded. Qed.
 Print Assumptions C08_position_recorded.
+
+(* Altering the position beyond the branch: a verified transaction's recorded position is the supplied
+   one and lies in [0, 2^len(branch)). *)
+Theorem C08_verified_position_fits : forall (dsha : bytes -> bytes) headers st raw h arg net,
+  t_verified st = false ->
+  t_verified (mv_state (maybe_verify dsha headers st raw h arg net)) = true ->
+  exists brs, m_merkle (effective arg net) = Some brs /\
+    m_pos (effective arg net) = Some (t_position (mv_state (maybe_verify dsha headers st raw h arg net))) /\
+    (0 <= t_position (mv_state (maybe_verify dsha headers st raw h arg net)) < 2 ^ Z.of_nat (length brs))%Z.
+Proof. exact verified_position_fits. Qed.
+Print Assumptions C08_verified_position_fits.
 
 Theorem C08_height_recorded : forall (dsha : bytes -> bytes) headers st raw h arg net,
   t_height (mv_state (maybe_verify dsha headers st raw h arg net)) = h.
@@ -298,12 +318,46 @@ Theorem C08_chunk_attempts_sound : forall (dsha : bytes -> bytes) (csize : nat) 
 Proof. exact chunk_attempts_sound. Qed.
 Print Assumptions C08_chunk_attempts_sound.
 
+(* The same after a RESTART on a header file with arbitrary content (edited header inside a chunk, torn
+   write, anything): Headers.open keeps a checkpointed chunk only if the stored bytes hash to its
+   checkpoint, so every later verified result again read a header of a checkpoint-matching chunk. *)
+Theorem C08_chunk_reopen_sound : forall (dsha : bytes -> bytes) (csize : nat) (cps : list bytes) disk l,
+  Forall2 (att_ok dsha csize cps) l (snd (attempts dsha csize cps (reopen dsha cps disk) l)).
+Proof. exact chunk_reopen_sound. Qed.
+Print Assumptions C08_chunk_reopen_sound.
+
 (* the header such a verification reads at height h is header (h - k*csize) of chunk k *)
 Theorem C08_chunk_table_reads_chunk : forall (dsha : bytes -> bytes) (csize : nat) (cps : list bytes) k c h d,
   (k * csize <= h < k * csize + length c)%nat -> (h < total csize cps)%nat ->
   nth h (table csize cps k c) d = nth (h - k * csize) c d.
 Proof. exact nth_table. Qed.
 Print Assumptions C08_chunk_table_reads_chunk.
+
+(* ---------- the leaf of a witness-serialised transaction ---------- *)
+(* The txid preimage of the witness encoding of (t, flag, witnesses), trailing bytes included, is the
+   legacy encoding of t -- for every well-formed t, i.e. every script length and every number of inputs
+   and outputs (252, 253, 254, 65535, 65536, ...). *)
+Theorem C08_witness_txid_preimage : forall t flag wits rest,
+  wf_tx t -> wf_wits t wits -> (0 < flag < 256)%N ->
+  txid_preimage (serialize_segwit t flag wits ++ rest) = Some (serialize t).
+Proof. exact preimage_segwit. Qed.
+Print Assumptions C08_witness_txid_preimage.
+
+(* End to end: a block whose idx-th transaction has the legacy encoding of t; the server returns t
+   witness-serialised together with the genuine proof: verified, position idx recorded. *)
+Theorem C08_witness_tx_genuine_verified : forall (dsha : bytes -> bytes) headers st pres idx t flag wits rest h arg net r,
+  wf_tx t -> wf_wits t wits -> (0 < flag < 256)%N ->
+  (idx < length pres)%nat -> nth idx pres [] = serialize t ->
+  in_range headers h ->
+  merkle_root dsha (map dsha pres) = Some r ->
+  header_root_raw (nth (Z.to_nat h) headers []) = r ->
+  effective arg net = {| m_merkle := Some (map wire (branch dsha (map dsha pres) idx));
+                         m_pos := Some (Z.of_nat idx) |} ->
+  exists res, maybe_verify_raw dsha headers st (serialize_segwit t flag wits ++ rest) h arg net = Some res /\
+    t_verified (mv_state res) = true /\ t_position (mv_state res) = Z.of_nat idx /\
+    t_height (mv_state res) = h /\ mv_outcome res = RetTx.
+Proof. exact witness_tx_genuine_verified. Qed.
+Print Assumptions C08_witness_tx_genuine_verified.
 
 (* ---------- restarts and the persisted verdict ---------- *)
 (* A restart (close writes the chain held in memory, a new process opens the file) leaves exactly the
@@ -480,4 +534,23 @@ Example C08_cache_kept_on_replacement_refuted :
    snd (request toy_hash s_new (leaf_n 77) (nth 1 raws []) 2 (Some m) m)) =
   (Hit {| t_height := 2; t_position := 1; t_verified := true |}, false,
    Fetched {| t_height := 2; t_position := 1; t_verified := false |} RetTx).
+Proof. vm_compute. reflexivity. Qed.
+
+(* position must fit the branch: the fold alone would still reach the root with position 2+4 (bit 2 is
+   not consumed by a 2-sibling branch), maybe_verify refuses it and does not record it *)
+Example C08_ex_position_must_fit :
+  let raws := map leaf_n [1; 2; 3]%N in
+  let l := map toy_hash raws in
+  let root := match merkle_root toy_hash l with Some r => r | None => [] end in
+  let hdrs := [header_with_root (leaf_n 0); header_with_root root] in
+  let m := {| m_merkle := Some (map wire (branch toy_hash l 2)); m_pos := Some 6%Z |} in
+  let st := {| t_height := (-2)%Z; t_position := (-1)%Z; t_verified := false |} in
+  (bytes_eqb (fold_branch toy_hash (branch toy_hash l 2) 6 (nth 2 l [])) root,
+   maybe_verify toy_hash hdrs st (nth 2 raws []) 1 (Some m) m) =
+  (true, ({| t_height := 1; t_position := (-1)%Z; t_verified := false |}, RetTx, false)).
+Proof. vm_compute. reflexivity. Qed.
+
+(* the sample witness transaction of C05: its preimage is the legacy encoding *)
+Example C08_ex_witness_preimage :
+  txid_preimage (serialize_segwit sample_tx 1 sample_wits) = Some (serialize sample_tx).
 Proof. vm_compute. reflexivity. Qed.
